@@ -270,8 +270,8 @@ M('bkldlt-pivot-test-wrong-entry', 'C10', 'interchanged-pivot-is-tested',
 M('svd-matrixU-predicate-strict', 'C16', 'shape-predicates-agree',
   [('contrib/PartialSVDSolver.h', "        if (m_m <= m_n)\n        {\n            return m_evecs.leftCols(nu);", "        if (m_m < m_n)\n        {\n            return m_evecs.leftCols(nu);")], 'square matrices: U derived although the eigenvectors are U already')
 M('svd-tall-op-order', 'C16', 'shape-predicates-agree',
-  [('contrib/PartialSVDSolver.h', """        m_cache.noalias() = m_mat * x;
-        y.noalias() = m_mat.transpose() * m_cache;""", """        m_cache.noalias() = m_mat * x;
+  [('contrib/PartialSVDSolver.h', """        m_cache /= m_scale;
+        y.noalias() = m_mat.transpose() * m_cache;""", """        m_cache /= m_scale;
         y.noalias() = m_mat.transpose() * m_cache * Scalar(1);""")], 'neutral-looking; kept to see the rule is not brittle -- expected to stay silent? no: product shape changes')
 M('svd-no-clamp', 'C16', 'clamps-and-fixed-rule',
   [('contrib/PartialSVDSolver.h', "        nv = (std::min)(nv, m_nconv);\n", "")])
@@ -642,13 +642,12 @@ N('schur-guards-rewritten', 'C13',
    (S_, 'for (Index i = im + 2; i <= iu; ++i)', 'for (Index i = im + 2; i < iu + 1; ++i)')], 'same ranges')
 
 N('svd-derived-factor-multiplied-by-reciprocal', 'C16',
-  [('contrib/PartialSVDSolver.h', "return m_mat * (m_evecs.leftCols(nu).array().rowwise() / m_eigs->eigenvalues().head(nu).transpose().array().sqrt()).matrix();",
-    "return m_mat * (m_evecs.leftCols(nu).array().rowwise() * m_eigs->eigenvalues().head(nu).transpose().array().sqrt().inverse()).matrix();"),
-   ('contrib/PartialSVDSolver.h', "Vector svals = m_eigs->eigenvalues().cwiseSqrt();", "Vector svals = m_eigs->eigenvalues().cwiseMax(Scalar(0)).cwiseSqrt();")],
-  'multiplication by 1/sqrt(lambda) and a clamp at zero before the square root: same values')
+  [('contrib/PartialSVDSolver.h', "return m_mat * (m_evecs.leftCols(nu).array().rowwise() / (m_eigs->eigenvalues().head(nu).transpose().array().sqrt() * m_op->scale())).matrix();",
+    "return m_mat * (m_evecs.leftCols(nu).array().rowwise() * (m_eigs->eigenvalues().head(nu).transpose().array().sqrt() * m_op->scale()).inverse()).matrix();")],
+  'multiplication by 1/(s sqrt(lambda)) instead of division: same values')
 M('svd-derived-factor-relative-floor-missing-sqrt', 'C16', 'shape-predicates-agree',
-  [('contrib/PartialSVDSolver.h', "return m_mat.transpose() * (m_evecs.leftCols(nv).array().rowwise() / m_eigs->eigenvalues().head(nv).transpose().array().sqrt()).matrix();",
-    "return m_mat.transpose() * (m_evecs.leftCols(nv).array().rowwise() / m_eigs->eigenvalues().head(nv).transpose().array()).matrix();")],
+  [('contrib/PartialSVDSolver.h', "return m_mat.transpose() * (m_evecs.leftCols(nv).array().rowwise() / (m_eigs->eigenvalues().head(nv).transpose().array().sqrt() * m_op->scale())).matrix();",
+    "return m_mat.transpose() * (m_evecs.leftCols(nv).array().rowwise() / (m_eigs->eigenvalues().head(nv).transpose().array() * m_op->scale())).matrix();")],
   'V scaled by 1/lambda instead of 1/sigma')
 
 B_ = 'LinAlg/BKLDLT.h'
@@ -951,8 +950,11 @@ M('davidson-extend-without-orthogonalisation', 'C15', 'search-space-basis-orthon
   [('LinAlg/SearchSpace.h', "        twice_is_enough_orthogonalisation(m_basis_vectors, left_cols_to_skip);\n", "")], 'corrections appended to the basis as they are')
 
 # ----------------------------------------------------------------------------- F19
-M('davidson-max-size-setter-unclamped', 'C15', 'rayleigh-ritz-basis-fits-the-matrix',
-  [('JDSymEigsBase.h', "        m_max_search_space_size = max_search_space_size;\n        // Apply the same limits as the constructor: the search space\n        // cannot have more vectors than the dimension of the matrix\n        initialize();\n", "        m_max_search_space_size = max_search_space_size;\n")], 'reverts fix F19')
+N('davidson-max-size-setter-unclamped', 'C15',
+  [('JDSymEigsBase.h', "        m_max_search_space_size = max_search_space_size;\n        // Apply the same limits as the constructor: the search space\n        // cannot have more vectors than the dimension of the matrix\n        initialize();\n", "        m_max_search_space_size = max_search_space_size;\n")], 'reverts fix F19 -- harmless since fix F34: the rank-revealing extension keeps the basis within n columns (replayed on 200 solves with a maximum of 2n)')
+M('davidson-max-size-setter-unclamped-with-plain-extension', 'C15', 'rayleigh-ritz-basis-fits-the-matrix',
+  [('JDSymEigsBase.h', "        m_max_search_space_size = max_search_space_size;\n        // Apply the same limits as the constructor: the search space\n        // cannot have more vectors than the dimension of the matrix\n        initialize();\n", "        m_max_search_space_size = max_search_space_size;\n"),
+   ('LinAlg/SearchSpace.h', "        append_new_vectors_to_basis(Q);", "        append_new_vectors_to_basis(new_vect);")], 'reverts F19 and F34 together: the size clauses are demanded again')
 N('davidson-max-size-setter-clamps-inline', 'C15',
   [('JDSymEigsBase.h', "        m_max_search_space_size = max_search_space_size;\n        // Apply the same limits as the constructor: the search space\n        // cannot have more vectors than the dimension of the matrix\n        initialize();\n", "        m_max_search_space_size = (std::min)(max_search_space_size, Index(m_matrix_operator.cols()));\n")], 'clamped in place')
 
@@ -962,7 +964,7 @@ M('arnoldi-init-divides-by-zero-norm', 'C13', 'division-by-norm-guarded',
 
 # ----------------------------------------------------------------------------- F21
 M('svd-singular-values-sqrt-unguarded', 'C16', 'clamps-and-fixed-rule',
-  [('contrib/PartialSVDSolver.h', "m_eigs->eigenvalues().cwiseMax(Scalar(0)).cwiseSqrt();", "m_eigs->eigenvalues().cwiseSqrt();")], 'reverts fix F21')
+  [('contrib/PartialSVDSolver.h', "m_eigs->eigenvalues().cwiseMax(Scalar(0)).cwiseSqrt() * m_op->scale();", "m_eigs->eigenvalues().cwiseSqrt() * m_op->scale();")], 'reverts fix F21')
 
 # ----------------------------------------------------------------------------- F22
 M('arnoldi-init-keeps-old-dimension-until-the-end', 'C12', 'rejected-init-leaves-no-half-built-state',
@@ -1035,3 +1037,51 @@ M('bkldlt-solution-not-scaled-back', 'C10', 'factorized-matrix-normalised',
   [('LinAlg/BKLDLT.h', "        res *= (RealScalar(1) / m_scale);\n", "")], 'x solves (A / scale) x = b')
 M('bkldlt-data-not-normalised', 'C10', 'factorized-matrix-normalised',
   [('LinAlg/BKLDLT.h', "            m_data *= (RealScalar(1) / m_scale);\n        else\n            m_scale = RealScalar(1);", "            m_scale = RealScalar(1);\n        else\n            m_scale = RealScalar(1);")], 'reverts the scaling of fix F32')
+
+M('lanczos-subdiag-zero-only-on-exact-breakdown', 'C01,C07', 'subdiagonal-zero-iff-fresh-direction',
+  [('LinAlg/Lanczos.h', "            bool restart = (m_beta < m_near_0);", "            const bool breakdown = (m_beta < m_near_0);\n            bool restart = breakdown;"),
+   ('LinAlg/Lanczos.h', "m_fac_H(i, i - 1) = restart ? Scalar(0) : Scalar(m_beta);", "m_fac_H(i, i - 1) = breakdown ? Scalar(0) : Scalar(m_beta);")],
+  'retired seed C01h: on the second restart criterion the norm of the fresh random vector lands in H')
+
+# ----------------------------------------------------------------------------- F34 / F35
+M('davidson-extension-plain-qr', 'C15', 'search-space-basis-orthonormal',
+  [('LinAlg/SearchSpace.h', "        append_new_vectors_to_basis(Q);", "        append_new_vectors_to_basis(new_vect);")], 'reverts fix F34: the raw corrections are appended')
+M('davidson-extension-unpivoted-qr', 'C15', 'search-space-basis-orthonormal',
+  [('LinAlg/SearchSpace.h', "Eigen::ColPivHouseholderQR<Matrix> qr(W);\n        qr.setThreshold(std::sqrt(Eigen::NumTraits<Scalar>::epsilon()));\n        const Index rank = qr.rank();",
+    "Eigen::HouseholderQR<Matrix> qr(W);\n        const Index rank = W.cols();")], 'a plain QR cannot reveal the rank')
+M('davidson-extension-rank-not-applied', 'C15', 'search-space-basis-orthonormal',
+  [('LinAlg/SearchSpace.h', "Matrix::Identity(W.rows(), rank);", "Matrix::Identity(W.rows(), W.cols());")], 'all columns of Q kept')
+M('davidson-correction-loop-unclamped', 'C15', 'counts-clamped-by-available-pairs',
+  [('DavidsonSymEigsSolver.h', "const Index ncorr = (std::min)(this->m_correction_size, Index(residues.cols()));", "const Index ncorr = this->m_correction_size;")], 'reverts fix F35 (a)')
+M('davidson-restart-unclamped', 'C15', 'counts-clamped-by-available-pairs',
+  [('LinAlg/SearchSpace.h', "        size = (std::min)(size, Index(ritz_pairs.ritz_vectors().cols()));\n", "")], 'reverts fix F35 (b)')
+M('davidson-converged-starts-true', 'C15', 'counts-clamped-by-available-pairs',
+  [('LinAlg/RitzPairs.h', "bool converged = (norms.size() >= number_eigenvalues);", "bool converged = true;")], 'reverts fix F35 (c)')
+N('davidson-extension-full-pivoting', 'C15',
+  [('LinAlg/SearchSpace.h', "Eigen::ColPivHouseholderQR<Matrix> qr(W);", "Eigen::FullPivHouseholderQR<Matrix> qr(W);"),
+   ('LinAlg/SearchSpace.h', "qr.householderQ() * Matrix::Identity(W.rows(), rank);", "qr.matrixQ().leftCols(rank);")], 'another rank-revealing factorization')
+N('davidson-correction-count-from-ritz-values', 'C15',
+  [('DavidsonSymEigsSolver.h', "Index(residues.cols()));", "Index(eigvals.size()));")], 'same count from the other array')
+
+# ----------------------------------------------------------------------------- F36 / F37 / K4
+M('complexshift-roots-divide-by-nu', 'C13,C02', 'back-transformation-defined-for-a-zero-ritz-value',
+  [('GenEigsComplexShiftSolver.h', "const Complex root1 = (nu == Complex(0)) ? root2 : Complex(m_sigmar + (Scalar(1) + disc) / (Scalar(2) * nu));",
+    "const Complex root1 = Complex(m_sigmar + (Scalar(1) + disc) / (Scalar(2) * nu));")], 'the large root is computed for nu == 0 as well: (1 + 1) / 0')
+M('complexshift-small-root-cancelling-form', 'C13,C02', 'back-transformation-defined-for-a-zero-ritz-value',
+  [('GenEigsComplexShiftSolver.h', "m_sigmar + Scalar(2) * m_sigmai * m_sigmai * nu / (Scalar(1) + disc);", "m_sigmar + (Scalar(1) - disc) / (Scalar(2) * nu);")], 'reverts fix F36: 0/0 for nu == 0')
+N('complexshift-zero-test-written-as-if', 'C13',
+  [('GenEigsComplexShiftSolver.h', "const Complex root1 = (nu == Complex(0)) ? root2 : Complex(m_sigmar + (Scalar(1) + disc) / (Scalar(2) * nu));",
+    "Complex root1 = root2;\n            if (nu != Complex(0))\n                root1 = m_sigmar + (Scalar(1) + disc) / (Scalar(2) * nu);")], 'same guard as an if statement')
+M('svd-vectors-divide-by-raw-singular-values', 'C16,C13', 'shape-predicates-agree',
+  [('contrib/PartialSVDSolver.h', "return (svals.array() > Scalar(0)).select(svals.cwiseInverse(), Vector::Zero(k));", "return svals.cwiseInverse();")], 'reverts the guard of fix F37: 1/0 for the zero matrix')
+N('svd-vectors-unclamped-sqrt', 'C16,C13',
+  [('contrib/PartialSVDSolver.h', "const Vector svals = m_eigs->eigenvalues().head(k).cwiseMax(Scalar(0)).cwiseSqrt() * m_op->scale();", "const Vector svals = m_eigs->eigenvalues().head(k).cwiseSqrt() * m_op->scale();")], 'sqrt of a rounding-level negative eigenvalue is NaN, NaN > 0 is false, the column is zeroed all the same: behaviour unchanged')
+# ----------------------------------------------------------------------------- F33
+M('svd-operator-not-normalised', 'C16', 'svd-operator-normalised',
+  [('contrib/PartialSVDSolver.h', "        m_cache /= m_scale;\n        y.noalias() = m_mat.transpose() * m_cache;\n        y /= m_scale;\n", "        y.noalias() = m_mat.transpose() * m_cache;\n"),
+   ('contrib/PartialSVDSolver.h', "        m_cache /= m_scale;\n        y.noalias() = m_mat * m_cache;\n        y /= m_scale;\n", "        y.noalias() = m_mat * m_cache;\n")],
+  'the operators apply A\'A as it is while the accessors still multiply by the scale')
+M('svd-singular-values-not-scaled-back', 'C16', 'clamps-and-fixed-rule',
+  [('contrib/PartialSVDSolver.h', ".cwiseSqrt() * m_op->scale();", ".cwiseSqrt();")], 'singular values of A / s')
+M('svd-operator-scaled-once', 'C16', 'svd-operator-normalised',
+  [('contrib/PartialSVDSolver.h', "        y.noalias() = m_mat.transpose() * m_cache;\n        y /= m_scale;\n", "        y.noalias() = m_mat.transpose() * m_cache;\n")], 'A\'A / s: eigenvalues scale with ||A||')
